@@ -37,6 +37,8 @@ pub enum Start {
 pub enum Step {
     Exec { sender: String, funds: Vec<Coin>, msg: ExecuteMsg },
     Probe { sender: String, funds: Vec<Coin>, msg: ExecuteMsg },
+    /// executed on a copy and judged like an executed request (exhaustive exploration)
+    Try { sender: String, funds: Vec<Coin>, msg: ExecuteMsg },
     Migrate { msg: MigrateMsg },
     Query { msg: QueryMsg },
     SetMarker { denom: String, kind: u8 },
